@@ -64,14 +64,17 @@ Section Reach.
 End Reach.
 
 (* ================= 2. manager: the stale flag ================= *)
-Definition is_rebuild (o : mop) : bool := match o with MRebuild _ => true | _ => false end.
+Definition is_rebuild (o : mop) : bool := match o with MRebuild _ _ => true | _ => false end.
+
+Ltac mstep_cases :=
+  unfold m_step, e_with;
+  repeat (match goal with |- context [match ?c with _ => _ end] => destruct c eqn:? end).
 
 Lemma m_step_stale_stays : forall e o, e_stale e = true -> is_rebuild o = false ->
   e_stale (m_step e o) = true /\ e_types (m_step e o) = e_types e.
 Proof.
-  intros e o Hs Hr. destruct o as [ty|prop node v|fresh]; try discriminate; unfold m_step;
-    repeat (match goal with |- context [match ?c with _ => _ end] => destruct c eqn:? end);
-    cbn; auto.
+  intros e o Hs Hr. destruct o as [ty|prop node v|prop node|fresh el]; try discriminate;
+    mstep_cases; cbn; auto.
 Qed.
 
 Lemma usable_stale : forall e, e_stale e = true -> usable e = false.
@@ -90,15 +93,67 @@ Proof.
   apply IH; auto. apply m_step_stale_stays; auto.
 Qed.
 
-Theorem rebuild_clears : forall e fresh,
-  usable (m_step e (MRebuild (Some fresh))) = true.
+Theorem rebuild_clears : forall e fresh el,
+  usable (m_step e (MRebuild (Some fresh) el)) = true.
 Proof. reflexivity. Qed.
 
-(* an edge write on a type outside the covering relation, or a write to another property,
-   does not change the entry *)
 Theorem unrelated_write_is_noop : forall e ty, memn ty (e_types e) = false ->
   m_step e (MEdgeWrite ty) = e.
 Proof. intros e ty H. cbn. rewrite H. reflexivity. Qed.
+
+(* ---- measure writes keep the index's measure equal to the graph's, outside the known class ---- *)
+Definition rebuild_ok (o : mop) : bool :=
+  match o with
+  | MRebuild (Some ix) _ => match ix_measure ix with Some _ => true | None => false end
+  | _ => true
+  end.
+
+Lemma usable_inv : forall e, usable e = true -> exists ix, e_index e = Some ix /\ e_stale e = false.
+Proof.
+  intros e H. unfold usable in H. destruct (e_index e) as [ix|]; [|discriminate].
+  exists ix; split; auto. destruct (e_stale e); [discriminate|reflexivity].
+Qed.
+
+Lemma synced_step : forall e g o, synced e g -> rebuild_ok o = true -> removes_measure_at e o = false ->
+  synced (m_step e o) (g_step e g o).
+Proof.
+  intros e g o S Hr Hk. unfold synced in *.
+  destruct o as [ty|prop node v|prop node|fresh el].
+  - (* edge write *) cbn [m_step g_step]. destruct (memn ty (e_types e)); auto.
+    intros U. apply usable_inv in U as [ix [_ U]]. discriminate.
+  - (* measure write *)
+    cbn [m_step g_step]. destruct (e_prop e) as [pr|]; auto.
+    destruct (Nat.eqb pr prop); cbn [andb]; auto.
+    destruct (e_index e) as [ix|] eqn:Ei.
+    + destruct (node <? pn (ix_poset ix)).
+      * destruct (eligible e node).
+        2:{ intros U. destruct (S U) as [ix0 [E3 E4]]. try rewrite Ei in E3. inversion E3; subst ix0.
+            exists ix; split; auto. }
+        unfold update_measure. destruct (ix_measure ix) as [m|] eqn:Em.
+        -- intros U. apply usable_inv in U as [ix' [E1 E2]]. cbn in E1, E2.
+           destruct S as [ix0 [E3 E4]]; [unfold usable; rewrite Ei, E2; reflexivity|].
+           try rewrite Ei in E3. inversion E3; subst ix0. rewrite Em in E4. inversion E4; subst m.
+           eexists; split; [cbn; reflexivity|]. reflexivity.
+        -- intros U. apply usable_inv in U as [ix' [_ U]]. discriminate.
+      * intros U. apply usable_inv in U as [ix' [_ U]]. discriminate.
+    + intros U. apply usable_inv in U as [ix' [U _]]. discriminate.
+  - (* property removal: not the measure (or an ineligible node) *)
+    cbn [m_step g_step]. unfold removes_measure_at in Hk.
+    destruct (e_prop e) as [pr|]; auto. rewrite Hk. auto.
+  - (* rebuild *)
+    cbn [m_step g_step]. intros U. destruct fresh as [ix|]; [|discriminate].
+    cbn in Hr. destruct (ix_measure ix) as [m|] eqn:Em; [|discriminate].
+    exists ix; split; auto.
+Qed.
+
+Theorem measure_synced : forall ops e g, synced e g ->
+  forallb rebuild_ok ops = true -> Known_C28 e ops = false ->
+  synced (fst (mg_run e g ops)) (snd (mg_run e g ops)).
+Proof.
+  induction ops as [|o ops IH]; intros e g S Hr Hk; cbn [mg_run fst snd]; auto.
+  cbn in Hr, Hk. apply andb_true_iff in Hr as [Hr1 Hr2]. apply orb_false_iff in Hk as [Hk1 Hk2].
+  apply IH; auto. apply synced_step; auto.
+Qed.
 
 (* ================= 3. Fenwick tree over an abstract array ================= *)
 Lemma lowbitp_le : forall p, (Z.pos (lowbitp p) <= Z.pos p)%Z.
